@@ -51,6 +51,34 @@ def setup():
     return nameserver
 
 
+_YS = {}
+
+
+def yielding_storage(nameserver):
+    """MemoryStorage whose every access is followed by a scheduling point, so that another thread can run between a
+    storage access and whatever the caller does with the result on the same source line (CPython switches threads
+    between bytecodes, not lines; the accesses to the shared storage are the points that matter)"""
+    if "cls" in _YS:
+        return _YS["cls"]
+    base = nameserver.MemoryStorage
+
+    def wrap(name):
+        orig = getattr(base, name)
+
+        def method(self, *a, **k):
+            try:
+                return orig(self, *a, **k)
+            finally:
+                sc = S.CUR
+                if sc is not None and sc.controlled() and not sc.abort:
+                    sc.yield_point()
+        method.__name__ = name
+        return method
+    ns = {n: wrap(n) for n in ("__getitem__", "__setitem__", "__delitem__", "__contains__", "__len__", "everything", "remove_items")}
+    _YS["cls"] = type("YieldingMemoryStorage", (base,), ns)
+    return _YS["cls"]
+
+
 def run_once(nameserver, errors, chooser, scen, tfilter, dbdir=None):
     log = []
 
@@ -62,7 +90,7 @@ def run_once(nameserver, errors, chooser, scen, tfilter, dbdir=None):
                 os.unlink(db)
             ns = nameserver.NameServer(nameserver.SqlStorage(db))
         else:
-            ns = nameserver.NameServer(nameserver.MemoryStorage())
+            ns = nameserver.NameServer(yielding_storage(nameserver)())
         ns.register(c14.CH[7], c14.URI[0])
         for n in scen["init"]:
             ns.register(c14.name_str(n), c14.URI[2], metadata=[c14.TAG[1], c14.TAG[2]])
@@ -79,6 +107,14 @@ def run_once(nameserver, errors, chooser, scen, tfilter, dbdir=None):
         for i, o in enumerate(scen["ops"]):
             sc.spawn("t%d" % (i + 1), worker(i + 1, c14.norm_op(o)))
         sc.yield_point(lambda: done[0] == len(scen["ops"]))
+        # afterwards, sequentially: every shared name is looked up again (a completed history must explain these reads too)
+        for nm in ([1], [1, 1]):
+            o = {"op": "lookup", "name": nm, "meta": True}
+            log.append({"e": "call", "th": 4, "o": o})
+            log.append({"e": "ret", "th": 4, "r": c14.apply_op(ns, o, errors)})
+        o = {"op": "count", "meta": False}
+        log.append({"e": "call", "th": 4, "o": o})
+        log.append({"e": "ret", "th": 4, "r": c14.apply_op(ns, o, errors)})
         log.append({"e": "end", "list": c14.listing(ns)})
     res, sc = memnet.run(main, chooser=chooser, trace_filter=tfilter, max_steps=20000)
     if res.get("hang"):
@@ -108,14 +144,14 @@ def run(ctx):
         raise util.MachineryError("scenario generation incomplete")
     rng = random.Random(ctx.seed + 15)
     rng.shuffle(scen3)
-    scen3 = scen3[:ctx.pick(250, 3000)]
+    scen3 = scen3[:ctx.pick(80, 3000)]
     nsfile = os.path.abspath(nameserver.__file__)
 
     def tfilter(code):
         return os.path.abspath(code.co_filename) == nsfile
     traces = {}
     runs = 0
-    for scen, (bound, limit, nrand) in [(s, (ctx.pick(2, 3), ctx.pick(14, 60), ctx.pick(4, 20))) for s in scen2] + \
+    for scen, (bound, limit, nrand) in [(s, (ctx.pick(2, 3), ctx.pick(10, 60), ctx.pick(3, 20))) for s in scen2] + \
                                        [(s, (ctx.pick(1, 2), ctx.pick(8, 40), ctx.pick(4, 20))) for s in scen3]:
         def once(ch):
             return run_once(nameserver, errors, ch, scen, tfilter)
